@@ -5,6 +5,7 @@ import (
 	"go/ast"
 	"go/token"
 	"go/types"
+	"sort"
 	"strings"
 
 	"golang.org/x/tools/go/cfg"
@@ -371,6 +372,16 @@ func ruleMakeAppend(c *Ctx) {
 
 // ---------------------------------------------------------------------------------------------------------------
 
+// siblingIndexDeltas: the pairs of per-fork copies that legitimately address different fields (helpers read in place),
+// each reviewed against the spec's per-fork changes.
+var siblingIndexDeltas = map[string]string{
+	"altair.BeaconStateView.AddValidator~phase0":     "+Get(_inactivityScores) +Get(_stateCurrentEpochParticipation) +Get(_statePreviousEpochParticipation)", // altair: a new validator also gets participation flags and an inactivity score
+	"altair.BeaconStateView.ProcessBlock~phase0":     "-Get(_stateSlot)",                                                                                     // phase0 reads the slot from the state, later forks take it from the block envelope
+	"bellatrix.BeaconStateView.ProcessBlock~altair":  "+Get(_latestExecutionPayloadHeader)",                                                                  // bellatrix: is_execution_enabled looks at the latest payload header
+	"capella.BeaconStateView.ProcessBlock~bellatrix": "-Get(_latestExecutionPayloadHeader)",                                                                  // capella: the payload is always processed
+	"electra.BeaconStateView.ProcessEpoch~deneb":     "-Get(_stateValidators)",                                                                               // electra's epoch processing is a stub in this code base
+}
+
 func ruleSiblingIndex(c *Ctx) {
 	type seq struct {
 		names []string
@@ -381,77 +392,33 @@ func ruleSiblingIndex(c *Ctx) {
 	for _, f := range forkPkgs {
 		isFork[f] = true
 	}
-	// helper methods that take the field index as a parameter: method -> (parameter position, the Get/Set it makes with it)
-	type paramOps struct {
-		idx int
-		ops []string
-	}
-	parametric := map[*types.Func]paramOps{}
+	// every method is read with the same-package methods and functions it calls written out in place (a typed getter and
+	// its inlined body, a helper taking the field index as a parameter, a loop over a written-out table of fields are all
+	// the same accesses); the field is the constant the index argument resolves to through locals and parameters
 	c.P.funcDecls(func(pk *packages.Package, fd *ast.FuncDecl) {
 		if fd.Body == nil || !isFork[pkgShort(pk.Types)] || recvTypeName(fd) != "BeaconStateView" {
 			return
 		}
 		info := pk.TypesInfo
-		self, _ := info.Defs[fd.Name].(*types.Func)
-		ast.Inspect(fd.Body, func(n ast.Node) bool {
-			call, ok := n.(*ast.CallExpr)
-			if !ok || len(call.Args) < 1 || self == nil {
-				return true
-			}
-			sel, ok := call.Fun.(*ast.SelectorExpr)
-			if !ok || (sel.Sel.Name != "Get" && sel.Sel.Name != "Set") {
-				return true
-			}
-			if id, ok := ast.Unparen(call.Args[0]).(*ast.Ident); ok {
-				if k := paramIndex(fd, info, info.Uses[id]); k >= 0 {
-					po := parametric[self]
-					po.idx = k
-					po.ops = append(po.ops, sel.Sel.Name)
-					parametric[self] = po
-				}
-			}
-			return true
-		})
-	})
-	c.P.funcDecls(func(pk *packages.Package, fd *ast.FuncDecl) {
-		if fd.Body == nil || !isFork[pkgShort(pk.Types)] || recvTypeName(fd) != "BeaconStateView" {
-			return
-		}
-		info := pk.TypesInfo
-		if self, ok := info.Defs[fd.Name].(*types.Func); ok {
-			if _, isParam := parametric[self]; isParam {
-				return // compared through its callers
-			}
-		}
 		var names []string
-		ast.Inspect(fd.Body, func(n ast.Node) bool {
-			call, ok := n.(*ast.CallExpr)
-			if !ok || len(call.Args) < 1 {
-				return true
+		top := newInlEnv(info, fd.Body, nil, nil, nil, nil)
+		n := 0
+		walkInlined(c.P, pk, top, 0, map[*ast.BlockStmt]bool{}, &n, func(st inlSite) {
+			if (st.f.Name() != "Get" && st.f.Name() != "Set") || len(st.call.Args) < 1 {
+				return
 			}
-			if f := calleeFunc(info, call); f != nil {
-				if po, ok := parametric[f]; ok && po.idx < len(call.Args) {
-					if id, ok := ast.Unparen(call.Args[po.idx]).(*ast.Ident); ok {
-						if _, isConst := info.ObjectOf(id).(*types.Const); isConst {
-							for _, op := range po.ops {
-								names = append(names, op+"("+id.Name+")")
-							}
-						}
-					}
-					return true
+			if _, isSel := ast.Unparen(st.call.Fun).(*ast.SelectorExpr); !isSel {
+				return
+			}
+			x, fr := st.env.resolve(st.call.Args[0])
+			if id, ok := x.(*ast.Ident); ok {
+				if _, isConst := fr.info.ObjectOf(id).(*types.Const); isConst {
+					names = append(names, st.f.Name()+"("+id.Name+")")
 				}
 			}
-			sel, ok := call.Fun.(*ast.SelectorExpr)
-			if !ok || (sel.Sel.Name != "Get" && sel.Sel.Name != "Set") {
-				return true
-			}
-			if id, ok := ast.Unparen(call.Args[0]).(*ast.Ident); ok {
-				if _, isConst := info.ObjectOf(id).(*types.Const); isConst {
-					names = append(names, sel.Sel.Name+"("+id.Name+")")
-				}
-			}
-			return true
 		})
+		// (the order in which independent fields are read is not part of the agreement)
+		sort.Strings(names)
 		name := funcName(fd)
 		if fam[name] == nil {
 			fam[name] = map[string]seq{}
@@ -472,6 +439,32 @@ func ruleSiblingIndex(c *Ctx) {
 			}
 			key := f + "." + name + "~" + prev
 			a, b := strings.Join(m[prev].names, " "), strings.Join(s.names, " ")
+			// what this copy has more (+) and less (-) than its predecessor
+			cnt := map[string]int{}
+			for _, x := range s.names {
+				cnt[x]++
+			}
+			for _, x := range m[prev].names {
+				cnt[x]--
+			}
+			var delta []string
+			for _, x := range sortedKeys(cnt) {
+				for k := 0; k < cnt[x]; k++ {
+					delta = append(delta, "+"+x)
+				}
+				for k := 0; k < -cnt[x]; k++ {
+					delta = append(delta, "-"+x)
+				}
+			}
+			if want, isDelta := siblingIndexDeltas[key]; isDelta {
+				if strings.Join(delta, " ") == want {
+					c.ok(key, s.pos, "differs from %s's copy by the reviewed fork delta %s", prev, want)
+				} else {
+					c.bad(key, s.pos, "%s.%s differs from its copy in %s by [%s]; the reviewed fork delta for this pair is [%s]", f, name, prev, strings.Join(delta, " "), want)
+				}
+				prev = f
+				continue
+			}
 			if a == b {
 				c.ok(key, s.pos, "same fields as %s's copy (%d accesses)", prev, len(s.names))
 			} else {
